@@ -180,10 +180,84 @@ static std::string sukfs(Toks& t) {
     return runCalls(n, nc, bs, red, alpha, beta, kappa, mv, H, h0, R, calls);
 }
 
+// A whole history on one object of each kind (round 4): corrections (any size, failing model answers), skip(b) that
+// stays in force, move construction, likelihood queries at any moment — also before the first correction, right after
+// a move, after a skipped correction, and with the measurement model reporting a different noise covariance than at
+// the correction.  The standard correction object is driven through the same operations (not through corrections
+// whose size is not a multiple of the block size).
+//   sukfh n nc mszmax bs red alpha beta kappa H h0 R nops { op }*
+//     op: C k msz kind failM failP failI rscale y(msz) means covs outw | S b | M | Q rscale msz
+//   -> ok W s wm wc { C S mean cov U mean cov|Unone X cols .. Y cols .. YE n .. | Q lik|nolik .. U lik|nolik .. }*
+static std::string sukfh(Toks& t) {
+    long n = t.nat(), nc = t.nat(), mszmax = t.nat(), bs = t.nat(); bool red = t.flag();
+    double alpha = t.dbl(), beta = t.dbl(), kappa = t.dbl();
+    MatrixXd H = t.mat(mszmax, n); VectorXd h0 = t.vec(mszmax);
+    MatrixXd R = red ? t.mat(bs, bs) : t.mat(mszmax, mszmax);
+    long nops = t.nat();
+    struct Op { char kind; Call c; bool b; double rs; long mq; };
+    std::vector<Op> ops;
+    for (long i = 0; i < nops; ++i) {
+        Op op = Op(); std::string k = t.tok(); op.kind = k.empty() ? '?' : k[0]; op.b = false; op.rs = 1.0;
+        if (op.kind == 'C') {
+            Call& c = op.c; c.k = t.nat(); c.msz = t.nat(); c.kind = (int)t.nat();
+            c.failM = t.flag(); c.failP = t.flag(); c.failI = t.flag(); c.rscale = t.dbl(); c.toggle = false; c.qlik = false; c.zmode = 0; c.zcomp = 0;
+            if (c.msz < 1 || c.msz > mszmax) throw vh::BadArgs("msz");
+            c.y = t.vec(c.msz); c.means = t.mat(n, c.k); c.covs = t.mat(n, n * c.k); c.outw = t.vec(c.k);
+        } else if (op.kind == 'S') { op.b = t.flag(); }
+        else if (op.kind == 'M') { }
+        else if (op.kind == 'Q') { op.rs = t.dbl(); op.mq = t.nat(); if (op.mq < 1 || op.mq > mszmax) throw vh::BadArgs("mq"); }
+        else throw vh::BadArgs("op");
+        ops.push_back(op);
+    }
+    t.done();
+    HModel* ms = new HModel(0, nc, H, h0, VectorXd::Zero(mszmax), R, false, false, false);
+    std::unique_ptr<SUKFCorrection> sukfc(new SUKFCorrection(std::unique_ptr<AdditiveMeasurementModel>(ms), alpha, beta, kappa, (std::size_t)bs, red));
+    HModel* mu = new HModel(0, nc, H, h0, VectorXd::Zero(mszmax), R, false, false, false);
+    std::unique_ptr<UKFCorrection> ukfc(new UKFCorrection(std::unique_ptr<AdditiveMeasurementModel>(mu), alpha, beta, kappa));
+    sigma_point::UTWeight w((std::size_t)n, alpha, beta, kappa);
+    Out o; o.s("ok"); o.s("W"); o.n(w.mean.size()); o.m(w.mean); o.m(w.covariance);
+    long msz = mszmax;       // the measurement size in force (that of the last correction)
+    auto setNoise = [&](double rs, long msz) {
+        MatrixXd Rs = red ? MatrixXd(rs * R) : MatrixXd(rs * R.topLeftCorner(msz, msz));
+        MatrixXd Rfull = Rs;
+        if (red && msz % bs == 0) { Rfull = MatrixXd::Zero(msz, msz); for (long i = 0; i < msz / bs; ++i) Rfull.block(bs * i, bs * i, bs, bs) = Rs; }
+        ms->R_ = Rs; mu->R_ = Rfull;
+    };
+    for (const Op& op : ops) {
+        if (op.kind == 'S') { sukfc->skip(op.b); ukfc->skip(op.b); continue; }
+        if (op.kind == 'M') { sukfc.reset(new SUKFCorrection(std::move(*sukfc))); ukfc.reset(new UKFCorrection(std::move(*ukfc))); continue; }
+        if (op.kind == 'Q') {
+            setNoise(op.rs, op.mq);      // the noise covariance the model reports now, for a measurement of the stored size
+            o.s("Q"); outLik(o, sukfc->getLikelihood()); o.s("U"); outLik(o, ukfc->getLikelihood());
+            continue;
+        }
+        const Call& c = op.c;
+        msz = c.msz;
+        const bool divides = (msz % bs) == 0;
+        GaussianMixture pred(c.k, n - nc, nc), corrS(c.k, n - nc, nc), corrU(c.k, n - nc, nc);
+        pred.mean() = c.means; pred.covariance() = c.covs;
+        for (GaussianMixture* g : { &corrS, &corrU }) { g->mean().setConstant(12345.0); g->covariance().setConstant(-54321.0); g->weight() = c.outw; }
+        setNoise(c.rscale, msz);
+        for (HModel* m : { ms, mu }) {
+            m->kind_ = c.kind; m->H_ = H.topRows(msz); m->h0_ = h0.head(msz); m->y_ = c.y;
+            m->failM_ = c.failM; m->failP_ = c.failP; m->failI_ = c.failI; m->X_.resize(0, 0); m->Y_.resize(0, 0);
+            m->zmode_ = 0; m->zcomp_ = 0; m->zrows_ = bs; m->yeff_ = c.y;
+        }
+        sukfc->correct(pred, corrS);
+        o.s("C"); o.s("S"); o.m(corrS.mean()); o.m(corrS.covariance());
+        if (divides) { ukfc->correct(pred, corrU); o.s("U"); o.m(corrU.mean()); o.m(corrU.covariance()); }
+        else o.s("Unone");
+        o.s("X"); o.n(ms->X_.cols()); o.m(ms->X_);
+        o.s("Y"); o.n(ms->Y_.cols()); o.m(ms->Y_);
+    }
+    return o.str();
+}
+
 int main() {
     return vh::run([](const std::string& op, Toks& t, std::string& out) {
         if (op == "sukf") { out = sukf(t); return true; }
         if (op == "sukfs") { out = sukfs(t); return true; }
+        if (op == "sukfh") { out = sukfh(t); return true; }
         return false;
     });
 }
